@@ -277,7 +277,7 @@ func main() {
 						c.Prev = append(c.Prev, q)
 					}
 				}
-				if r.Chance(1, 8) { // another request in flight, held (and possibly failing) at a chosen point
+				if !rtgen.HasStatic(script) && r.Chance(1, 8) { // another request in flight, held (and possibly failing) at a chosen point
 					c.Overlap = &rtgen.OverlapT{Kind: hx.Pick(r, []string{"handler", "end-slow", "end-panic", "end-panic"}),
 						Role: hx.Pick(r, []string{"A", "B", "B"}), Other: rtgen.GenReqWide(r, script)}
 				}
@@ -300,7 +300,7 @@ func main() {
 					i++
 				}
 			}
-			if r.Chance(1, 12) && i < a.N {
+			if !rtgen.HasStatic(script) && r.Chance(1, 12) && i < a.N {
 				// concurrent burst on both engines: every pair of different answers to one request is a case
 				var reqs []rtgen.ReqT
 				for k := r.Range(6, 12); k > 0; k-- {
